@@ -605,6 +605,40 @@ func runC02(c *Ctx) error {
 			}
 		}
 	}
+	// ---- one configuration held in memory, packaged for several formats in turn (a release tool): the relations every
+	// package states are the configured ones, whichever format was packaged before
+	famS := c.Rep.Family("relations-from-a-shared-configuration", "exhaustive over 4 orders: one nfpm.Config built in Go whose provides / depends / replaces lists contain blank items before and between the real ones, packaged through Config.Get for ipk, deb, ipk, deb, apk …: the Provides / Depends / Replaces the deb and ipk control files state against the configured items; non-trivial = always")
+	famS.Exhaustive = true
+	for oi, order := range [][]string{{"ipk", "ipk", "deb", "ipk"}, {"deb", "ipk", "deb"}, {"ipk", "deb", "rpm", "deb"}, {"apk", "archlinux", "ipk", "deb", "ipk"}} {
+		base := (&PkgSpec{Umask: 0o022, MTime: 1700000000}).Info()
+		base.Provides = []string{"  ", "prov-a", "", "prov-b (= 1.0)"}
+		base.Depends = []string{"dep-a", "dep-b (>= 2)"}
+		base.Replaces = []string{"old-a"}
+		cfg := &nfpm.Config{Info: *base}
+		for step, f := range order {
+			gi, err := cfg.Get(f)
+			if err != nil {
+				break
+			}
+			data, err := BuildPkg(f, nfpm.WithDefaults(gi))
+			famS.Eval(fmt.Sprintf("%d|%d|%s", oi, step, f), err == nil)
+			if err != nil || (f != "deb" && f != "ipk") {
+				continue
+			}
+			dec, err := DecodePkg(f, data)
+			if err != nil {
+				continue
+			}
+			pm := metaOf(dec)
+			for field, want := range map[string]string{"Provides": "prov-a, prov-b (= 1.0)", "Depends": "dep-a, dep-b (>= 2)", "Replaces": "old-a"} {
+				if got := pm.Fields[field]; got != want {
+					c.Rep.Find(report.Finding{Property: "C02", Family: "relations-from-a-shared-configuration", Shape: f + ":relation-differs-after-earlier-packagings:" + field,
+						What:  fmt.Sprintf("%s of the %s package built as step %d of %v from one configuration: %q, configured %q", field, f, step+1, order, got, want),
+						Input: map[string]any{"order": order, "step": step + 1, "format": f, "provides": base.Provides, "depends": base.Depends}})
+				}
+			}
+		}
+	}
 	// ---- epochs at the ends of their range
 	famE := c.Rep.Family("epoch-boundaries", "exhaustive: epoch in {0, 1, 2147483647, 2147483648, 4294967294, 4294967295} x 5 formats: the epoch the package states vs the configured one (control version prefix / rpm EPOCH tag and the whole rpm header / pkgver); a value the format cannot carry must be refused, not dropped; non-trivial = always")
 	famE.Exhaustive = true
